@@ -441,7 +441,7 @@ pub fn main(args: &[String]) {
         let n: u64 = if args[0] == "gen" { args[2].parse().unwrap() } else { KINDS.len() as u64 };
         for i in 0..n {
             let kind = KINDS[((seed + i) % KINDS.len() as u64) as usize];
-            run_case(addr, &certs, seed, i, kind, &mut out).await;
+            crate::guard_case!(out, 300, run_case(addr, &certs, seed, i, kind, &mut out));
         }
         let _ = std::fs::remove_dir_all(&dir);
         out
